@@ -113,3 +113,16 @@ package transport
 //@ ensures result2 == nil && !encrypted ==> uf("crc32", ptr(result1), len(result1)) == result0.crc
 //@ loop 1 invariant received + toRead == rheader.size && len(buf) == rheader.size && rheader.size != 0 && rheader.size < 4611686018427387904
 //@ loop 1 invariant ptr(recvBuf) == ptr(buf) + received && len(recvBuf) == min(toRead, recvBufSize) && cap(recvBuf) == cap(buf) - received && cap(buf) >= len(buf)
+
+// ---------------------------------------------------------------- sender side: every chunk is stamped with the deployment id (C15)
+// the receiver only accepts chunks with a matching deployment id, so a chunk sent without it
+// (witness snapshots included) makes a valid stream never finalize
+//@ func (j *job) sendChunk [C15]
+//@ trusted hands the chunk to the connection (after the optional test hook)
+//@ requires c.DeploymentId == j.deploymentID
+//@ func loadChunkData [C15]
+//@ trusted reads the chunk's bytes from the snapshot file
+//@ extern sync/atomic (v *Value) Load
+//@ func (j *job) sendChunks [C15]
+//@ noframe
+//@ nobounds
